@@ -336,7 +336,7 @@ def stats_from(msgs):
 
 def classify(props, ob, info):
     """Split CBMC's per-property verdicts. Returns dict with lists."""
-    out = {"fail": [], "unwind_fail": [], "guard_fail": [], "unsupported": [], "reach": {}, "asserts": [],
+    out = {"fail": [], "harness_bug": [], "unwind_fail": [], "guard_fail": [], "unsupported": [], "reach": {}, "asserts": [],
            "n_props": 0, "n_success": 0}
     guard_syms = set(info.get("guard_syms") or [])
     for p in props:
@@ -366,6 +366,9 @@ def classify(props, ob, info):
         elif "not currently supported by Kani" in desc or "no-body" in name or "no_body" in name \
                 or "unsupported" in desc.lower() or "should be unreachable" in desc and "undefined function" in desc:
             out["unsupported"].append(p)
+        elif "verif_h_" in (fn + name) and "assertion failed" not in desc:
+            # an overflow / bounds failure INSIDE harness or reference-model code is a harness defect, not a finding
+            out["harness_bug"].append(p)
         else:
             out["fail"].append(p)
     return out
@@ -489,6 +492,10 @@ def run_obligation(ob, table, outdir):
     r["failed"] = [{"property": p.get("property"), "description": p.get("description", "")[:200],
                     "location": "%s:%s" % ((p.get("sourceLocation") or {}).get("file", "?"),
                                            (p.get("sourceLocation") or {}).get("line", "?"))} for p in c["fail"]]
+    if c["harness_bug"]:
+        r["reason"] = "failure inside harness/reference-model code (harness defect, not a finding): " + \
+            "; ".join("%s %s" % (p.get("property", ""), p.get("description", "")[:80]) for p in c["harness_bug"][:3])
+        return r
     if c["fail"]:
         r["verdict"] = "fail"
         r["reason"] = "; ".join("%s @%s" % (f["description"][:90], f["location"]) for f in r["failed"][:3])
